@@ -32,7 +32,7 @@ import (
 // responsive peers are real sockets over a real transport.
 
 type spec struct {
-	Kind   string `json:"kind"` // matrix | dl-block | dl-ready | nodl | be | multi | fnp-none | fnp-leave | stale | be-multi | be-race | dl-churn | dl-inherit | dl-cross | nodl-leave | dl-behind
+	Kind   string `json:"kind"` // matrix | dl-block | dl-ready | nodl | be | multi | fnp-none | fnp-leave | stale | be-multi | be-race | dl-churn | dl-inherit | dl-cross | nodl-leave | dl-behind | dl-retry
 	Proto  string `json:"proto"`
 	Obj    string `json:"obj"`            // sock | ctx
 	Op     string `json:"op,omitempty"`   // send | recv
@@ -41,7 +41,7 @@ type spec struct {
 	NPipes int    `json:"npipes,omitempty"`
 	Q      int    `json:"q,omitempty"`     // WriteQLen (send) / ReadQLen (recv); never 0
 	State  string `json:"state,omitempty"` // send queue state: empty | partial | full
-	K      int    `json:"k,omitempty"`     // recv: messages made available; multi: number of concurrent callers
+	K      int    `json:"k,omitempty"`     // recv: messages made available; multi: number of concurrent callers; dl-retry: retries of the same message
 	DUs    int64  `json:"d_us,omitempty"`  // deadline in microseconds (0 = none)
 	FNP    bool   `json:"fnp,omitempty"`   // fail-no-peers also set
 	WithDL bool   `json:"with_dl,omitempty"`
@@ -84,6 +84,9 @@ func (s spec) variant() string {
 	}
 	if s.Blk != "" {
 		v += "/behind-blocked-" + s.Blk
+	}
+	if s.Kind == "dl-retry" {
+		v += "/same-message-retried"
 	}
 	return v
 }
@@ -527,6 +530,8 @@ func genCases(rnd *rand.Rand, thorough bool) []mon.CaseSpec {
 	// ==== third part (appended): the timed call is issued while another call is already blocked on
 	// the same socket (or on another context of it)
 	genBehind(rnd, thorough, reps, add, pickQ)
+	// ==== fourth part (appended): a Send that timed out is retried with the very same message object
+	genRetry(rnd, thorough, reps, add, pickQ)
 	return cases
 }
 
@@ -560,6 +565,8 @@ func runCase(c *mon.Case, sp spec) {
 		runChurn(c, sp)
 	case "dl-behind":
 		runBehind(c, sp)
+	case "dl-retry":
+		runRetry(c, sp)
 	default:
 		panic("unknown kind " + sp.Kind)
 	}
